@@ -1,4 +1,4 @@
 SPECIFICATION Spec
-CONSTANTS N = 3  E = 3  Labels = {1, 2, 3, 4, 6, 9, 12}  IL = 1  CK = 3  CLabels = {1, 2, 3, 4, 5, 6}  CMaxN = 6
+CONSTANTS N = 3  E = 2  Labels = {1, 2, 3, 4, 6, 9, 12}  IL = 2  CK = 3  CLabels = {1, 2, 3, 4, 5, 6}  CMaxN = 6
 INVARIANTS LayeredTheorem NumberingTheorem
 CHECK_DEADLOCK FALSE
